@@ -287,9 +287,62 @@ pub fn retro_predecessors(s: &Pos, rng: &mut Rng, max: usize) -> Vec<Pos> {
 }
 
 /// Roots two plies before a stalemate (or mate) of a side that still has pieces: the last move is a quiet one.
+/// Stalemates in which the stalemated side owns a pawn with an empty square in front of it that is pinned to its
+/// king along a diagonal or a rank (so the pawn's advance is the move that is not there).
+pub fn pinned_pawn_stalemates(rng: &mut Rng, tries: usize) -> Vec<Pos> {
+    let mut out = vec![];
+    for _ in 0..tries {
+        let mut p = Pos::empty();
+        let weak = *rng.pick(&[Col::W, Col::B]);
+        let ks = rng.below(64) as u8;
+        let (df, dr) = *rng.pick(&[(1i8, 1i8), (1, -1), (-1, 1), (-1, -1), (1, 0), (-1, 0)]);
+        let k1 = 1 + rng.below(3) as i8; let k2 = k1 + 1 + rng.below(3) as i8;
+        let (Some(ps), Some(ss)) = (sq_of(file_of(ks) + df * k1, rank_of(ks) + dr * k1), sq_of(file_of(ks) + df * k2, rank_of(ks) + dr * k2)) else { continue };
+        if ps / 8 == 0 || ps / 8 == 7 { continue; }
+        p.sq[ks as usize] = Some((weak, Pc::K));
+        p.sq[ps as usize] = Some((weak, Pc::P));
+        p.sq[ss as usize] = Some((weak.opp(), if dr == 0 { *rng.pick(&[Pc::R, Pc::Q]) } else { *rng.pick(&[Pc::B, Pc::Q]) }));
+        place_random(&mut p, rng, weak.opp(), Pc::K);
+        for _ in 0..1 + rng.below(3) { let pc = *rng.pick(&[Pc::Q, Pc::R, Pc::R, Pc::N, Pc::B]); place_near(&mut p, rng, weak.opp(), pc, ks); }
+        p.turn = weak;
+        let fwd: i32 = if weak == Col::W { 8 } else { -8 };
+        let ahead = ps as i32 + fwd;
+        if !(0..64).contains(&ahead) || p.sq[ahead as usize].is_some() { continue; }
+        if !p.is_consistent() || p.in_check(weak) || !p.legal_moves().is_empty() { continue; }
+        out.push(p);
+    }
+    out
+}
+
+/// Stalemates of the materially *stronger* side: its king boxed in by its own frozen men, the other side owning
+/// little more than a king. (A side that is far behind may save itself by a quiet stalemating move.)
+pub fn frozen_stronger_side_stalemates(rng: &mut Rng, tries: usize) -> Vec<Pos> {
+    let val = |pc: Pc| match pc { Pc::P => 100, Pc::N => 320, Pc::B => 330, Pc::R => 500, Pc::Q => 900, Pc::K => 0 };
+    let mut out = vec![];
+    for _ in 0..tries {
+        let mut p = Pos::empty();
+        let frozen = *rng.pick(&[Col::W, Col::B]);
+        let ks = *rng.pick(&[0u8, 7, 56, 63, 1, 6, 8, 15, 48, 55, 57, 62, 2, 5, 58, 61]);
+        p.sq[ks as usize] = Some((frozen, Pc::K));
+        for _ in 0..2 + rng.below(4) { let pc = *rng.pick(&[Pc::P, Pc::P, Pc::P, Pc::P, Pc::B, Pc::N, Pc::R]); place_near(&mut p, rng, frozen, pc, ks); }
+        place_random(&mut p, rng, frozen.opp(), Pc::K);
+        for _ in 0..rng.below(4) { let pc = *rng.pick(&[Pc::P, Pc::P, Pc::N, Pc::B]); place_near(&mut p, rng, frozen.opp(), pc, ks); }
+        p.turn = frozen;
+        let mat = |c: Col| -> i32 { p.sq.iter().filter_map(|x| *x).filter(|(cc, _)| *cc == c).map(|(_, pc)| val(pc)).sum() };
+        if mat(frozen) < mat(frozen.opp()) + 150 { continue; }
+        if !p.is_consistent() || p.in_check(frozen) || !p.legal_moves().is_empty() { continue; }
+        out.push(p);
+    }
+    out
+}
+
 pub fn roots_before_terminal(rng: &mut Rng, tries: usize, stalemate: bool, max: usize) -> Vec<(Pos, u8)> {
+    roots_before(terminal_with_pieces(rng, tries, stalemate), rng, max)
+}
+
+pub fn roots_before(terminals: Vec<Pos>, rng: &mut Rng, max: usize) -> Vec<(Pos, u8)> {
     let mut out: Vec<(Pos, u8)> = vec![];
-    for s in terminal_with_pieces(rng, tries, stalemate) {
+    for s in terminals {
         // up to four quiet retro-plies back: the terminal position then lies exactly on the horizon of a search
         // of that depth, at the end of a line full of narrowed windows
         let mut frontier = vec![s];
